@@ -45,3 +45,12 @@ def mlcl_degenerate_obligations(seed):
         obs.append(Ob(f"{name} + must-link / cannot-link on duplicated or saturated pairs: finite parameters, probabilities and scores", PROVED if not fails else REFUTED,
                       "native", "B", {"failing": fails[:2], "replayed": bool(fails)}, fn="gemclus.mlcl.add_mlcl_constraint"))
     return obs
+
+
+def ladder_obligations(seed, tier):
+    obs = []
+    for name, (nfit, fails) in R.ladder(seed, tier).items():
+        obs.append(Ob(f"size ladder: {name}: {nfit} fits at larger / awkward sizes (41 samples in batches of 20, 90 in batches of 25, 300 samples whole and in batches of 128, "
+                      "12 features) yield a coherent model and take exactly max_iter * ceil(n / batch_size) optimiser steps",
+                      PROVED if not fails and nfit > 0 else REFUTED, "native", "B", {"fits": nfit, "failing": fails[:3], "replayed": True}, fn=f"{name}.fit"))
+    return obs
